@@ -12,7 +12,7 @@
    at most the recorded amount cannot fail for lack of funds); the same inequality is also evaluated on the
    implementation's snapshots by Monitors.mon_C05 on every run. Statements only. *)
 From MD.Model Require Import Base Ownable Epoch PoolMath Types PoolManager FarmManager Chain.
-From MD.Proofs Require Import BankProofs ChainProofs AtomicProofs WeightProofs FarmProofs RewardProofs FarmCustody FarmCustodyChain NonVacuity TxFarm.
+From MD.Proofs Require Import BankProofs ChainProofs AtomicProofs WeightProofs FarmProofs RewardProofs FarmCustody FarmCustodyChain NonVacuity TxFarm Redeemable PositionsExample.
 
 (* the invariant, for every reachable world *)
 Theorem C05_custody_in_every_reachable_world : forall g w0 ops d,
@@ -110,6 +110,29 @@ Theorem C05_position_creation_transaction_moves_exactly_the_attached_lp : forall
   forall a d, bal (w_bank w') a d = bal (w_bank w) a d - ind (String.eqb a sender) (camt funds d) + ind (String.eqb a FM) (camt funds d).
 Proof. exact position_create_tx_balances. Qed.
 
+(* "HENCE every position can be withdrawn in full ... at any time": in every world where the custody invariant holds
+   (every reachable world, C05_custody_in_every_reachable_world) and no fault is being injected, the WITHDRAWAL TRANSACTION of a closed
+   position whose unlock instant has been reached, sent by its owner, SUCCEEDS - the handler accepts it (C08_withdraw_iff)
+   and the farm manager's bank balance covers the transfer of the whole recorded amount (C05); what it moves is
+   C08_withdrawal_transaction_moves_exactly_these_balances. (Side conditions of a real bank: the owner is not the farm
+   manager itself, his balance is not negative and stays within u128.) *)
+Theorem C05_closed_position_withdrawal_transaction_succeeds : forall g w0 ops o id q e,
+  genesis_world g = Ok w0 -> 0 <= amount_of (fm_create_fee (g_fm g)) -> Forall op_ok ops ->
+  let w := run w0 ops in
+  w_fault w = None ->
+  sfind pos_id id (fm_positions (w_fm w)) = Some q -> pos_recv q = o -> pos_open q = false -> pos_exp q = Some e ->
+  e <= seconds (w_block w) ->
+  o <> FM ->
+  0 <= bal (w_bank w) o (denom_of (pos_lp q)) ->
+  bal (w_bank w) o (denom_of (pos_lp q)) + amount_of (pos_lp q) <= U128_MAX ->
+  exists w', run_tx w o FM (WFm (FmPosWithdraw id None)) [] = Ok w'.
+Proof. exact reachable_closed_position_withdrawable. Qed.
+
+(* ... on a real history (kernel-evaluated): after everything bob and carol did, alice's withdrawal transaction is
+   accepted and moves exactly 500000 LP from the farm manager to her *)
+Theorem C05_redeem_example : redeem_statement.
+Proof. exact redeem_example. Qed.
+
 Print Assumptions C05_custody_in_every_reachable_world.
 Print Assumptions C05_custody_preserved_by_every_operation.
 Print Assumptions C05_every_message_is_accounted.
@@ -119,3 +142,5 @@ Print Assumptions C05_close_farm_refunds_exactly_the_remainder.
 Print Assumptions C05_claims_never_exceed_the_funded_amount.
 Print Assumptions C05_hypotheses_met_by_a_real_history.
 Print Assumptions C05_position_creation_transaction_moves_exactly_the_attached_lp.
+Print Assumptions C05_closed_position_withdrawal_transaction_succeeds.
+Print Assumptions C05_redeem_example.
